@@ -297,6 +297,36 @@ fn check_all_widths(raw: u128, a: &mut Allocator) -> CaseResult {
 fn check_atom(atom: &[u8], a: &mut Allocator) -> CaseResult {
     let cp = a.checkpoint();
     let node = a.new_atom(atom).unwrap();
+    // the same VALUE in the allocator's other storage classes: a slice of a longer
+    // heap atom (what `substr` yields at run time; also for the empty atom and for
+    // values that `new_atom` would store inline) and a concatenation
+    let mut padded = vec![0xa5u8; 3];
+    padded.extend_from_slice(atom);
+    padded.extend_from_slice(&[0x5a; 2]);
+    let host = a.new_atom(&padded).unwrap();
+    let sliced = a.new_substr(host, 3, 3 + atom.len() as u32).unwrap();
+    let mid = atom.len() / 2;
+    let (h1, h2) = (a.new_atom(&atom[..mid]).unwrap(), a.new_atom(&atom[mid..]).unwrap());
+    let joined = a.new_concat(atom.len(), &[h1, h2]).unwrap();
+    for (node, repr) in [(node, "new_atom"), (sliced, "new_substr"), (joined, "new_concat")] {
+        for width in [4usize, 8] {
+            let got = sanitize_uint(a, node, width, ValidationErr::Err(ErrorCode::InvalidCoinAmount));
+            let want = mint::classify_uint(atom, width);
+            let ok = match (&got, &want) {
+                (Ok(SanitizedUint::Ok(g)), UintClass::Ok(w)) => g == w,
+                (Ok(SanitizedUint::NegativeOverflow), UintClass::Negative) => true,
+                (Ok(SanitizedUint::PositiveOverflow), UintClass::TooLarge) => true,
+                (Err(_), UintClass::NonCanonical) => true,
+                _ => false,
+            };
+            vensure!(
+                ok,
+                "C11:sanitize_uint:wrong-class",
+                "sanitize_uint(atom {} made with {repr}, width {width}) = {got:?}, rule says {want:?}",
+                hex(atom)
+            );
+        }
+    }
     for width in [4usize, 8] {
         let got = sanitize_uint(a, node, width, ValidationErr::Err(ErrorCode::InvalidCoinAmount));
         let want = mint::classify_uint(atom, width);
